@@ -245,7 +245,17 @@ def are_d_separated(
 
     # Filter to ancestors
     keep = graph.ancestors_inclusive(named)
-    evidence_graph = graph.subgraph(keep).moralize().disorient()
+    ancestral_graph = graph.subgraph(keep)
+    # replace each bidirected edge with an explicit latent common parent before moralizing,
+    # so that a conditioned node that is a collider only through a bidirected edge opens the path
+    latent_dag = nx.DiGraph()
+    latent_dag.add_nodes_from(ancestral_graph.nodes())
+    latent_dag.add_edges_from(ancestral_graph.directed.edges())
+    for u, v in ancestral_graph.undirected.edges():
+        latent = ("latent", u, v)
+        latent_dag.add_edge(latent, u)
+        latent_dag.add_edge(latent, v)
+    evidence_graph = nx.moral_graph(latent_dag)
 
     keep = set(evidence_graph.nodes) - set(conditions)
     evidence_graph = evidence_graph.subgraph(keep)
